@@ -90,18 +90,20 @@ Definition data_ok (k : case) (r : rmatch) : bool :=
   let m := rm_m r in
   list_eqb N.eqb (snd (fst (fst r))) (slice (c_file k) (m_start m) (m_start m + m_len m)).
 
-(* the context window is the match plus c_ctx bytes on each side, clipped to
-   a delivered block that contains the match *)
+(* the context window holds the file's bytes around the match: it contains
+   the match, reaches at most c_ctx bytes to each side, and lies inside a
+   delivered block that contains the match (how much of the available context
+   is returned is not specified: snippets of neighbouring matches are shared) *)
 Definition ctx_ok (k : case) (r : rmatch) : bool :=
   let m := rm_m r in
   let s := m_start m in let e := m_start m + m_len m in
-  existsb (fun b =>
-    let base := fst b in let bend := fst b + snd b in
-    (base <=? s) && (e <=? bend) &&
-    let ws := N.max (s - c_ctx k) base in
-    let we := N.min (e + c_ctx k) bend in
-    list_eqb N.eqb (snd (fst r)) (slice (c_file k) ws we) && (snd r =? s - ws))
-    (c_blocks k).
+  let rel := snd r in
+  let w := snd (fst r) in
+  let ws := s - rel in
+  let we := ws + N.of_nat (length w) in
+  (rel <=? s) && (rel <=? c_ctx k) && (e <=? we) && (we <=? e + c_ctx k) &&
+  list_eqb N.eqb w (slice (c_file k) ws we) &&
+  existsb (fun b => (fst b <=? ws) && (we <=? fst b + snd b)) (c_blocks k).
 
 Definition derived_ok (k : case) (d : N * dkind * bool) : bool :=
   let '(p, kind, verdict) := d in
